@@ -160,9 +160,9 @@ func (c *caseCtx) build() {
 	c.prog = &program{n: len(c.bodies), bodies: c.bodies, kinds: kindsByProp[c.prop], blockNumber: c.rg.blockNumber, salts: map[string][32]byte{}}
 	c.prog.compileAll()
 	usesLockup := c.txKind == "lockup"
-	for _, b := range c.bodies {
-		for _, o := range b {
-			if c.prog.kinds[o.K%len(c.prog.kinds)] == "lockup" {
+	for i, b := range c.bodies {
+		for ai, o := range b {
+			if c.prog.kindOf(i, ai, o) == "lockup" {
 				usesLockup = true
 			}
 		}
@@ -174,23 +174,20 @@ func (c *caseCtx) build() {
 	c.backend = backend
 	c.w = openWorld(backend)
 	w := c.w
-	// ---- lockup ledger seeds
-	owners := []common.Address{contractAddrs[0], contractAddrs[1], payerAddr, contractAddrs[0]}
-	for i := 0; i < 4; i++ {
-		if c.seedMask>>uint(i)&1 == 0 && i > 0 {
-			continue
-		}
-		s := lockSeed{owner: owners[i], miner: minerQuai, lockupByte: byte(i % 2), epoch: 1, balance: big.NewInt(int64(7000 + i)), unlock: 5, elements: 3, inBatch: c.seedMask>>uint(4+i%2)&1 == 1}
-		switch i {
-		case 1:
+	// ---- lockup ledger seeds: one record per contract (locked or claimable), one for the payer, one Qi-ledger record
+	for i := range c.bodies {
+		s := lockSeed{owner: contractAddrs[i], miner: minerQuai, lockupByte: byte(i % 2), epoch: 1, balance: big.NewInt(int64(7000 + i)), unlock: 5, elements: 3, inBatch: c.seedMask>>uint(5+i%2)&1 == 1}
+		if c.seedMask>>uint(i)&1 == 1 {
 			s.unlock = uint32(c.rg.blockNumber) + 10 // still locked
-		case 2:
+		}
+		if i == 2 {
 			s.delegate = recvFunded
-		case 3:
-			s.miner, s.lockupByte, s.epoch = minerQi, 0, 1
 		}
 		w.seeds = append(w.seeds, s)
 	}
+	w.seeds = append(w.seeds,
+		lockSeed{owner: payerAddr, miner: minerQuai, lockupByte: 0, epoch: 1, balance: big.NewInt(7100), unlock: 5, elements: 1, inBatch: c.seedMask>>7&1 == 1},
+		lockSeed{owner: contractAddrs[0], miner: minerQi, lockupByte: 0, epoch: 1, balance: big.NewInt(7200), unlock: 5, elements: 2})
 	// ---- accounts
 	accts := []acctSpec{{addr: payerAddr, balance: payerBalance, nonce: payerNonce}, {addr: recvFunded, balance: big.NewInt(7)}}
 	for i := range c.bodies {
@@ -299,6 +296,9 @@ func (c *caseCtx) exec(gasLimit uint64, inject int, enforce, record bool, what s
 	p.batch = c.w.newBatch()
 	p.tx = c.makeTx(gasLimit)
 	rg := c.rg
+	if c.txKind == "etx-in" {
+		rg.gasPrice = big0 // an inbound ETX runs at gas price zero
+	}
 	p.tc = newTracer(c.w, &rg, p.st, p.batch, p.tx.Hash())
 	p.tc.prop, p.tc.enforce, p.tc.inject, p.tc.tr, p.tc.record = c.prop, enforce, inject, c.tr, record
 	gp := new(types.GasPool).AddGas(blockGasLimit)
@@ -559,7 +559,7 @@ func (c *caseCtx) check(p *pass) {
 			if c.txKind == "ext" {
 				kind, debit = "CALL-external", txValue
 			}
-			model = append(model, &etxModel{kind: kind, tx: e, debit: debit})
+			model = append(model, &etxModel{kind: kind, tx: e, debit: debit, value: debit})
 		}
 		if c.txKind == "lockup" && fn == "claim-coinbase" {
 			for i := range w.seeds {
@@ -575,9 +575,10 @@ func (c *caseCtx) check(p *pass) {
 	// ---------------- C02: nothing is created
 	gasLimitBig := new(big.Int).SetUint64(p.gasLimit)
 	minCharge, maxCharge := new(big.Int).Mul(gasUsed, price), new(big.Int).Mul(gasLimitBig, price)
-	debits, refunds, burns := new(big.Int), new(big.Int), new(big.Int).Set(tc.burnAtEnd)
+	debits, carried, refunds, burns := new(big.Int), new(big.Int), new(big.Int), new(big.Int).Set(tc.burnAtEnd)
 	for _, m := range model {
-		debits.Add(debits, m.debit)
+		debits.Add(debits, m.debit)   // stated value + prepaid fee: the most that may leave with the operations
+		carried.Add(carried, m.value) // value the recorded ETXs carry: the least that must have left
 	}
 	if tc.survivor != nil && !failed {
 		for _, sd := range tc.survivor.sds {
@@ -592,6 +593,12 @@ func (c *caseCtx) check(p *pass) {
 		inboundMax.Set(txValue)
 		if !failed {
 			inboundMin.Set(txValue)
+			// the zero address is only the vehicle of an inbound transfer: whatever it holds when execution ends is
+			// dropped when its balance is put back (state_processor: "Residual balance will be lost")
+			if z := tc.zeroAtEnd; z != nil && z.Sign() > 0 {
+				burns.Add(burns, z)
+				simkit.Global.Inc("probe.burn_residual_on_zero_address")
+			}
 		} else {
 			simkit.Global.Inc("probe.burn_failed_inbound_etx")
 		}
@@ -606,31 +613,32 @@ func (c *caseCtx) check(p *pass) {
 		}
 	}
 	upper := new(big.Int).Sub(w.sumPre, minCharge)
-	upper.Sub(upper, debits).Add(upper, refunds).Add(upper, inboundMax)
+	upper.Sub(upper, carried).Add(upper, refunds).Add(upper, inboundMax)
 	lower := new(big.Int).Sub(w.sumPre, lowCharge)
 	lower.Sub(lower, debits).Add(lower, refunds).Add(lower, inboundMin).Sub(lower, burns)
 	if burns.Sign() > 0 {
 		simkit.Global.Inc("probe.documented_burn")
 	}
 	if sumAfter.Cmp(upper) > 0 {
-		c.fail("C02", "tx-conservation", fmt.Sprintf("%s status=%d value-created", label, p.receipt.Status),
-			fmt.Sprintf("sum of balances before %v, after %v: more than before - gasUsed*price(%v) - outbound(%v) + selfdestruct refunds(%v) + inbound(%v) = %v (excess %v)",
-				w.sumPre, sumAfter, minCharge, debits, refunds, inboundMax, upper, new(big.Int).Sub(sumAfter, upper)))
+		conds := map[string]bool{}
+		for _, m := range model {
+			if m.cond != "" && m.cond != "ok" {
+				conds[m.kind+":"+m.cond] = true
+			}
+		}
+		cl := make([]string, 0, len(conds))
+		for k := range conds {
+			cl = append(cl, k)
+		}
+		sort.Strings(cl)
+		c.fail("C02", "tx-conservation", fmt.Sprintf("%s status=%d value-created outbound=[%s] %s", label, p.receipt.Status, strings.Join(cl, ","), c.rg.forkTag()),
+			fmt.Sprintf("sum of balances before %v, after %v: more than before - gasUsed*price(%v) - value carried by outbound ETXs(%v) + selfdestruct refunds(%v) + inbound(%v) = %v (excess %v)",
+				w.sumPre, sumAfter, minCharge, carried, refunds, inboundMax, upper, new(big.Int).Sub(sumAfter, upper)))
 	}
 	if sumAfter.Cmp(lower) < 0 {
 		c.fail("C02", "value-destroyed", fmt.Sprintf("%s status=%d", label, p.receipt.Status),
 			fmt.Sprintf("sum of balances before %v, after %v: less than before - charge(%v) - outbound(%v) + refunds(%v) + inbound(%v) - documented burns(%v) = %v (missing %v)",
 				w.sumPre, sumAfter, lowCharge, debits, refunds, inboundMin, burns, lower, new(big.Int).Sub(lower, sumAfter)))
-	}
-	// the payer's gas charge
-	if c.txKind != "etx-in" && !(c.txKind == "suicide" && !failed) {
-		charge := new(big.Int).Sub(c.pre.GetBalance(ip), p.st.GetBalance(ip))
-		if !failed && (c.txKind == "call" || c.txKind == "create" || c.txKind == "transfer" || c.txKind == "ext") {
-			charge.Sub(charge, txValue)
-		}
-		if charge.Cmp(minCharge) < 0 || charge.Cmp(maxCharge) > 0 {
-			c.fail("C02", "gas-charge-bounds", fmt.Sprintf("%s status=%d", label, p.receipt.Status), fmt.Sprintf("payer charged %v, gasUsed*price = %v, gasLimit*price = %v", charge, minCharge, maxCharge))
-		}
 	}
 	if failed {
 		for _, a := range w.known {
@@ -641,6 +649,16 @@ func (c *caseCtx) check(p *pass) {
 			if before, after := c.pre.GetBalance(ia), p.st.GetBalance(ia); before.Cmp(after) != 0 {
 				c.fail("C02", "failed-tx-balance", label, fmt.Sprintf("balance of %x was %v before the failed transaction and is %v after it", a.Bytes(), before, after))
 			}
+		}
+	}
+	// the payer's gas charge
+	if c.txKind != "etx-in" && !(c.txKind == "suicide" && !failed) {
+		charge := new(big.Int).Sub(c.pre.GetBalance(ip), p.st.GetBalance(ip))
+		if !failed && (c.txKind == "call" || c.txKind == "create" || c.txKind == "transfer" || c.txKind == "ext") {
+			charge.Sub(charge, txValue)
+		}
+		if charge.Cmp(minCharge) < 0 || charge.Cmp(maxCharge) > 0 {
+			c.fail("C02", "gas-charge-bounds", fmt.Sprintf("%s status=%d", label, p.receipt.Status), fmt.Sprintf("payer charged %v, gasUsed*price = %v, gasLimit*price = %v", charge, minCharge, maxCharge))
 		}
 	}
 }
